@@ -359,12 +359,13 @@ pub fn run(run: &mut Run) {
     let mut sel = Sel::standard(thorough);
     sel.m4 = None;
     if !thorough {
-        // quick: RAY and EP use the reduced W-scan (occupied sources + empty-source probe set);
-        // M3, CASTLE, PROMO and REACH scan all of W
+        // quick: M3, RAY and EP use the reduced W-scan (occupied sources + empty-source probe
+        // set); CASTLE, PROMO and REACH scan all of W
         let (ray, ep) = (sel.ray.take(), sel.ep.take());
+        sel.m3 = false;
         run_universes(run, &sel, DISAGREE, &check_pos);
-        let sel2 = Sel { ray, ep, ..Default::default() };
-        run.notes.push("quick: RAY and EP use the reduced W-scan (members of W whose source is occupied + sources on the a8-h1 diagonal)".into());
+        let sel2 = Sel { m3: true, ray, ep, ..Default::default() };
+        run.notes.push("quick: M3, RAY and EP use the reduced W-scan (members of W whose source is occupied + sources on the a8-h1 diagonal)".into());
         run_universes(run, &sel2, DISAGREE, &check_pos_reduced);
     } else {
         run_universes(run, &sel, DISAGREE, &check_pos);
